@@ -785,6 +785,11 @@ impl<'layout, 'out> TableWriter<'layout, 'out> {
         if address == 0 {
             // Resolution is undefined.
             *got_entry = 0;
+            if self.output_kind.is_shared_object() {
+                // We allocated a dynamic relocation for this GOT entry, since for shared objects the
+                // offset is only known at runtime. Emit it without a symbol, as GNU ld does.
+                self.write_tpoff_relocation::<A>(got_address, 0, 0)?;
+            }
             return Ok(());
         }
         // TLS_MODULE_BASE points at the end of the .tbss in some cases, thus relax the
